@@ -258,7 +258,7 @@ def gen_cases(ctx, extra_bias=None):
             c2[ak] = c2[ak][:k]
             cases.append(mk(gi, rcpt, c2, amt=amt, raft=(c.get("name") == "changeCluster")))
     # random sequences of mutated commands
-    nseq = (25 if quick else 1500) * (3 if extra_bias else 1)
+    nseq = (15 if quick else 800) * (3 if extra_bias else 1)
     for _ in range(nseq):
         gi = newg()
         rcpt = extra_bias if extra_bias and rng.random() < 0.8 else rng.choice(list(setups))
@@ -290,7 +290,7 @@ def gen_cases(ctx, extra_bias=None):
     cases.append(mk(gi, "aergo.system", '{"Name":"v1stake"}', raft=True))
     cases.append(mk(gi, "aergo.enterprise", '{"name":"appendAdmin","args":["@A0"]}', pub=True))
     # raw byte stream: random bytes and byte-level mutations of valid payloads
-    nraw = 40 if quick else 4000
+    nraw = 25 if quick else 2000
     seeds = [json.dumps(c).encode() for _, c, _ in rs]
     for _ in range(nraw):
         gi = newg()
